@@ -412,6 +412,187 @@ theorem default_types : ShellOp.Facts.c08DefaultEventTypes = ["Added", "Modified
     ∧ ShellOp.Facts.c08FactsStale = false
     ∧ defaultTypes = [.added, .modified, .deleted] := by decide
 
+/-! ## The event types come from the hook configuration (`ConvertAndCheck` + `WithEventTypes`) -/
+
+/-- **C08 configured_types_listed.** For every way a kubernetes binding can write its two keys
+(each absent, `[]`, or any list — order and repeats included): an event type is in the list the
+loader hands to the monitor iff the binding *lists* it — `executeHookOnEvent` when the key is there
+(also when it is empty), the deprecated alias `watchEvent` only when it is not, everything when
+neither is. -/
+theorem configured_types_listed (exec watch : Option (List WatchEvent)) (ev : WatchEvent) :
+    ev ∈ configuredTypes exec watch ↔ Spec.listed exec watch ev = true := by
+  cases exec <;> cases watch <;> simp [configuredTypes, withEventTypes, Spec.listed]
+  rw [default_types.2.2]; cases ev <;> simp
+
+/-- `executeHookOnEvent` has priority: once the key is given, `watchEvent` is irrelevant. -/
+theorem execute_key_priority (l : List WatchEvent) (watch : Option (List WatchEvent)) :
+    configuredTypes (some l) watch = l := by
+  simp [configuredTypes, withEventTypes]
+
+example : configuredTypes (some []) (some [.added]) = [] ∧ configuredTypes none (some [.added]) = [.added]
+    ∧ configuredTypes none (some []) = [] ∧ configuredTypes none none = [.added, .modified, .deleted]
+    ∧ configuredTypes (some [.deleted, .deleted]) none = [.deleted, .deleted] := by decide
+
+/-- **C08 binding_fires_iff.** `fires_iff` for an informer whose monitor was built by the loader from
+a binding `(exec, watch)`: an Added/Modified change triggers iff the binding lists its type and the
+projection differs from the last one known; a Deleted change iff the binding lists Deleted. -/
+theorem binding_fires_iff {C : Type} [DecidableEq C] (exec watch : Option (List WatchEvent))
+    (cfg : Cfg) (hcfg : cfg.types = configuredTypes exec watch) (cks : J → C)
+    (cache : Cache C) (known : Spec.Known) (ev : WatchEvent) (id : Nat) (obj p : J)
+    (hrel : Rel cks cache known) (hp : project cfg obj = some p)
+    (hinj : ∀ q, aget id known = some q → cks q = cks p → q = p) :
+    (handle cfg cks cache ev id obj).2.isSome = true ↔
+      (ev = .deleted ∧ Spec.listed exec watch .deleted = true) ∨
+      (ev ≠ .deleted ∧ Spec.listed exec watch ev = true ∧ aget id known ≠ some p) := by
+  rw [fires_iff cfg cks cache known ev id obj p hrel hp hinj, hcfg,
+    configured_types_listed, configured_types_listed]
+
+/-- One change handled by an informer without any event type never emits anything. -/
+theorem handle_no_types {C : Type} [DecidableEq C] (cfg : Cfg) (ht : cfg.types = []) (cks : J → C)
+    (cache : Cache C) (ev : WatchEvent) (id : Nat) (obj : J) :
+    (handle cfg cks cache ev id obj).2 = none := by
+  have hs : ∀ e, shouldFire cfg e = false := fun e => by rw [shouldFire_eq, ht]; simp
+  cases ha : applyFilter cfg cks obj with
+  | none =>
+    by_cases hev : ev = .deleted
+    · subst hev; rw [handle_delete_error cfg cks cache id obj ha]; simp [hs]
+    · rw [handle_filter_error cfg cks cache ev id obj hev ha]
+  | some e =>
+    by_cases hev : ev = .deleted
+    · subst hev; rw [handle_delete cfg cks cache id obj e ha]; simp [hs]
+    · rw [handle_upsert cfg cks cache ev id obj e hev ha]; simp [hs]
+
+/-- **C08 empty_list_never_triggers.** A binding with `executeHookOnEvent: []` (a snapshot-only
+binding) — whatever it says under `watchEvent`, whatever the filter, the cache and the history of
+changes (Deleted included) — never triggers the hook. -/
+theorem empty_list_never_triggers {C : Type} [DecidableEq C] (watch : Option (List WatchEvent))
+    (cfg : Cfg) (hcfg : cfg.types = configuredTypes (some []) watch) (cks : J → C) :
+    ∀ (hist : List Change) (cache : Cache C), ∀ e ∈ (run cfg cks cache hist).2, e = none := by
+  have ht : cfg.types = [] := by rw [hcfg, execute_key_priority]
+  intro hist
+  induction hist with
+  | nil => intro cache e he; simp [run] at he
+  | cons c rest ih =>
+    intro cache e he
+    obtain ⟨ev, id, obj⟩ := c
+    simp only [run, List.mem_cons] at he
+    rcases he with h | h
+    · rw [h]; exact handle_no_types cfg ht cks cache ev id obj
+    · exact ih _ e h
+
+example : (run { exCfg with types := configuredTypes (some []) (some [.added, .modified, .deleted]) } id []
+    [(.added, 1, exObj 1 0), (.modified, 1, exObj 2 0), (.deleted, 1, exObj 2 0)]).2.map Option.isSome
+    = [false, false, false] := by decide
+
+/-- … while the snapshot still follows every change of such a binding. -/
+example : (aget 1 (run { exCfg with types := configuredTypes (some []) (some [.added]) } id []
+    [(.added, 1, exObj 1 0), (.modified, 1, exObj 2 0)]).1).map (·.fr) = some (some (.num 2)) := by decide
+
+/-! ## The checksum is taken over the JSON text: values of different JSON types never share a text -/
+
+/-- null / boolean / number / string / array / object. -/
+def kind : J → Nat
+  | .null => 0 | .bool _ => 1 | .num _ => 2 | .str _ => 3 | .arr _ => 4 | .obj _ => 5
+
+def firstChar (s : String) : Option Char := s.toList.head?
+
+/-- What the first character of a JSON text says about the type of the value. -/
+def kindOfFirst : Option Char → Nat
+  | some c => if c = 'n' then 0 else if c = 't' ∨ c = 'f' then 1 else if c = '"' then 3
+              else if c = '[' then 4 else if c = '{' then 5 else 2
+  | none => 6
+
+theorem firstChar_quote (s : String) : firstChar (quote s) = some '"' := by
+  simp [firstChar, quote, String.toList_append]
+
+theorem firstChar_nat (n : Nat) : ∃ c, firstChar (toString n) = some c ∧ c.isDigit = true := by
+  have hne : Nat.toDigits 10 n ≠ [] := Nat.toDigits_ne_nil
+  cases h : Nat.toDigits 10 n with
+  | nil => exact absurd h hne
+  | cons c rest =>
+    refine ⟨c, ?_, ?_⟩
+    · simp [firstChar, h]
+    · exact Nat.isDigit_of_mem_toDigits (b := 10) (n := n) (by decide) (by decide) (by rw [h]; simp)
+
+theorem kindOfFirst_digit (c : Char) (hd : c.isDigit = true) : kindOfFirst (some c) = 2 := by
+  have h1 : c ≠ 'n' := by rintro rfl; revert hd; decide
+  have h2 : c ≠ 't' := by rintro rfl; revert hd; decide
+  have h3 : c ≠ 'f' := by rintro rfl; revert hd; decide
+  have h4 : c ≠ '"' := by rintro rfl; revert hd; decide
+  have h5 : c ≠ '[' := by rintro rfl; revert hd; decide
+  have h6 : c ≠ '{' := by rintro rfl; revert hd; decide
+  simp [kindOfFirst, h1, h2, h3, h4, h5, h6]
+
+theorem kindOfFirst_int (n : Int) : kindOfFirst (firstChar (toString n)) = 2 := by
+  rw [Int.toString_eq_repr, Int.repr_eq_if]
+  split
+  · obtain ⟨c, hc, hd⟩ := firstChar_nat n.toNat
+    have : n.toNat.repr = toString n.toNat := rfl
+    rw [this, hc]
+    exact kindOfFirst_digit c hd
+  · simp [firstChar, String.toList_append, kindOfFirst]
+
+/-- The first character of the canonical text determines the JSON type of the value. -/
+theorem kindOfFirst_print (v : J) : kindOfFirst (firstChar v.print) = kind v := by
+  cases v with
+  | null => simp [J.print, firstChar, kindOfFirst, kind]
+  | bool b => cases b <;> simp [J.print, firstChar, kindOfFirst, kind]
+  | num n => simp only [J.print, kind]; exact kindOfFirst_int n
+  | str t => simp [J.print, firstChar_quote, kindOfFirst, kind]
+  | arr xs => simp [J.print, firstChar, String.toList_append, kindOfFirst, kind]
+  | obj kvs => simp [J.print, firstChar, String.toList_append, kindOfFirst, kind]
+
+/-- **C08 text_separates_types.** Two projections of different JSON types (null vs "null", 3 vs
+"3", true vs "true", [1] vs "[1]" …) never have the same text — so a checksum over the text can
+only confuse them through a collision of the hash itself. -/
+theorem text_separates_types (p q : J) (hk : kind p ≠ kind q) : p.print ≠ q.print := by
+  intro h
+  apply hk
+  rw [← kindOfFirst_print p, ← kindOfFirst_print q, h]
+
+example : (J.str "null").print ≠ J.null.print ∧ (J.str "3").print ≠ (J.num 3).print :=
+  ⟨text_separates_types _ _ (by decide), text_separates_types _ _ (by decide)⟩
+
+/-- **C08 retyped_projection_fires.** With the checksum of the code (`textCks h`, `h` any hash
+that does not collide on the two texts at hand): an Added/Modified change of a listed type whose
+projection has another JSON type than the cached one — whatever the texts inside — triggers. -/
+theorem retyped_projection_fires {C : Type} [DecidableEq C] (h : String → C) (cfg : Cfg)
+    (cache : Cache C) (ev : WatchEvent) (id : Nat) (obj p q : J) (c : Entry C)
+    (hev : ev ≠ .deleted) (hl : ev ∈ cfg.types) (hp : project cfg obj = some p)
+    (hc : aget id cache = some c) (hcq : c.cks = textCks h q) (hk : kind q ≠ kind p)
+    (hh : q.print ≠ p.print → h q.print ≠ h p.print) :
+    (handle cfg (textCks h) cache ev id obj).2.isSome = true := by
+  have ha : applyFilter cfg (textCks h) obj = some
+      { cks := textCks h p, fr := if cfg.filter.isSome then some p else none, obj := some obj } := by
+    rw [applyFilter_eq, hp]; rfl
+  rw [handle_upsert cfg (textCks h) cache ev id obj _ hev ha]
+  have hne : ¬ c.cks = textCks h p := by
+    rw [hcq]; exact hh (text_separates_types q p hk)
+  have hs : shouldFire cfg ev = true := (shouldFire_iff cfg ev).2 hl
+  simp [hc, hne, hs]
+
+/-- 3 → "3" under `.spec.replicas`, checksum = the text itself: Modified fires, and back. -/
+example :
+    let o1 : J := .obj [("spec", .obj [("replicas", .num 3)])]
+    let o2 : J := .obj [("spec", .obj [("replicas", .str "3")])]
+    let c1 := (handle exCfg (textCks id) [] .modified 1 o1).1
+    (handle exCfg (textCks id) c1 .modified 1 o2).2.isSome = true ∧
+    (handle exCfg (textCks id) (handle exCfg (textCks id) c1 .modified 1 o2).1 .modified 1 o1).2.isSome = true := by
+  decide
+
+/-- Witness about a checksum that hashes string results raw (without their quotes): null → "null"
+is then suppressed although the projection changed. -/
+theorem raw_string_checksum_witness :
+    let rawCks : J → String := fun j => match j with | .str s => s | v => v.print
+    let cfg : Cfg := { types := [.modified], filter := some (.one (.path ["metadata", "labels", "mode"])), keep := true }
+    let o1 : J := .obj [("metadata", .obj [])]
+    let o2 : J := .obj [("metadata", .obj [("labels", .obj [("mode", .str "null")])])]
+    let c1 := (handle cfg rawCks [] .modified 1 o1).1
+    project cfg o1 ≠ project cfg o2 ∧
+    (handle cfg rawCks c1 .modified 1 o2).2.isSome = false ∧
+    (handle cfg (textCks id) (handle cfg (textCks id) [] .modified 1 o1).1 .modified 1 o2).2.isSome = true := by
+  decide
+
 /-- Regression witness for the repaired defect: with the projection the unrepaired code used
 (`jq.ApplyFilter` kept object-valued outputs only), `.spec.replicas` 1 → 2 does not change the
 projection although the jq result changes — so Modified never fired. -/
